@@ -197,7 +197,7 @@ impl Gen {
                 // guarded quantifier over one or two fresh-or-shadowing variables
                 let exists = self.rng.below(2) == 0;
                 let int_sorted = self.rng.below(4) == 0;
-                let name = if int_sorted { self.pick(&["N$i", "M$i", "I$i"]) } else { self.pick(&["X", "Y", "Z", "Z1", "S$s"]) }.to_string();
+                let name = if int_sorted { self.pick(&["N$i", "M$i", "I$i", "X$i", "Y$i"]) } else { self.pick(&["X", "Y", "Z", "Z1", "S$s", "X$s", "N"]) }.to_string();
                 let guard = match self.rng.below(4) {
                     0 => { let t = self.term(gens, ints); if t.contains(name.trim_end_matches("$i").trim_end_matches("$s")) { format!("p({name})") } else { format!("{name} = {t}") } }
                     1 => format!("q({name}, {})", self.term(gens, ints)),
@@ -231,6 +231,12 @@ pub fn corpus(deep: bool) -> Vec<String> {
     for a in props { for o in ops { for b in props { out.push(format!("{a} {o} {b}")); } } }
     let small: Vec<String> = { let mut v = Vec::new(); for a in ["p", "q"] { for o in ["->", "<-", "and", "<->"] { for b in ["p", "q", "r"] { v.push(format!("({a} {o} {b})")); } } } v };
     for a in &small { for o in ops { for b in &small { out.push(format!("{a} {o} {b}")); } } }
+    // variables of different sorts that share a name are different variables
+    for t in ["exists X (X$i = 1 and p(X))", "exists X (X$s = a and p(X))", "exists X (p(X) and 1 = X$i)", "forall X$i (q(X$i) -> exists X (X$i = 1 and p(X)))", "forall X$s (exists X (X$s = a and p(X)) or q(X$s))",
+              "exists X$i (X = 1 and p(X$i))", "exists X X$i (X = X$i and p(X) and q(X$i))", "exists X$i (X$i = X and p(X$i)) and p(X)", "forall X (p(X) -> exists X$i (X$i = X and q(X$i, X)))", "exists Y (Y$i = N$i and q(Y, Y$i))",
+              "exists X$s X$i (X = X$s and X = X$i and p(X))", "exists X (X = X$i and exists X$i (X$i = 1 and q(X, X$i)))", "exists N (N = N$i + 1 and p(N)) and p(N$i)", "forall X$i X (X = X$i -> p(X)) -> p(X$i)"] {
+        out.push(t.to_string());
+    }
     // the three sorts side by side
     for t in ["exists X$i Y$s (Z = X$i and Z = Y$s and p(X$i))", "exists X$i Y$s (X$i = Z and Y$s = Z and p(X$i) and q(Y$s))", "exists Y$s X$i (Z = Y$s and X$i = Z and p(1))", "forall X (exists X$i Y$s (#inf = X$i and #inf = Y$s and p(X$i)) -> q(X))",
               "exists X$s (X$s = a and p(X$s))", "exists X$s (X$s = Y and p(X$s))", "exists X$s Y$s (X$s = Y$s and q(X$s, Y$s))", "forall X$s (p(X$s) -> exists N$i (q(N$i) and N$i < X$s))", "exists X (exists Y$s (X = Y$s) and p(X))",
@@ -259,7 +265,7 @@ pub fn corpus(deep: bool) -> Vec<String> {
     for i in 0..n {
         let depth = 1 + (i % 4) as u32;
         let mut gens = vec!["X".to_string(), "Y".to_string()];
-        let mut ints = vec!["N$i".to_string()];
+        let mut ints = vec!["N$i".to_string(), "X$i".to_string()];
         out.push(g.formula(depth, &mut gens, &mut ints));
     }
     let mut seen = std::collections::BTreeSet::new();
